@@ -31,6 +31,7 @@ type Loc struct {
 	Idx    string     // LElem / LArrIdx: index term
 	Cell   int        // LCell id
 	Global string     // LGlobal heap name
+	Src    ssa.Value  // LCell with Cell == -1 (write analysis): the Alloc of a variable declared inside the analysed region
 }
 
 type Closure struct {
